@@ -6,14 +6,15 @@ use pallas_network::miniprotocols::{localmsgnotification as lmn, localmsgsubmiss
 use std::fmt::Debug;
 use verif_harness::*;
 
-pub fn run_dbg<M>(cx: &mut Ctx, stack: &str, proto: &str, variant: &str, msg: &M)
+pub fn run_dbg<M>(cx: &mut Ctx, stack: &str, proto: &str, variant: &str, msg: &M) -> bool
 where M: Encode<()> + for<'b> Decode<'b, ()> + Debug {
+    let fails0 = cx.fails;
     let key = |what: &str| format!("{}/{}/{}/{}", stack, proto, variant, what);
     let shown = format!("{:?}", msg);
     let bytes = match guard(|| minicbor::to_vec(msg).map_err(|e| e.to_string())) {
         Out::Ok(b) => b,
-        Out::Err(e) => { cx.fails += 1; emit_oracle_fail(&key("encode-error"), &format!("message={} encode error: {}", shown, e)); return; }
-        Out::Panic(p) => { cx.fails += 1; emit_oracle_fail(&key("encode-panic"), &format!("message={} encode panicked: {}", shown, p)); return; }
+        Out::Err(e) => { cx.fails += 1; emit_oracle_fail(&key("encode-error"), &format!("message={} encode error: {}", shown, e)); return false; }
+        Out::Panic(p) => { cx.fails += 1; emit_oracle_fail(&key("encode-panic"), &format!("message={} encode panicked: {}", shown, p)); return false; }
     };
     if let Err(why) = scan::exactly_one_item(&bytes) {
         cx.fails += 1;
@@ -28,6 +29,7 @@ where M: Encode<()> + for<'b> Decode<'b, ()> + Debug {
         Out::Panic(p) => { cx.fails += 1; emit_oracle_fail(&key("decode-panic"), &format!("message={} encoding={} decode panicked: {}", shown, hex(&bytes), p)); }
     }
     cx.tail += 1;
+    cx.fails == fails0
 }
 
 fn sb(r: &mut Rng) -> Vec<u8> { let n = *r.pick(&[0usize, 3, 32, 64]); r.bytes(n) }
@@ -79,13 +81,35 @@ pub fn round(cx: &mut Ctx, r: &mut Rng, round: u64) {
     }
 }
 
+/// Leading constructor names of a Debug form, e.g. `UtxowFailure.MissingRedeemers.Certifying`
+/// (at most 4, up to the first container of payloads): the class of a ledger failure.
+fn ctor_path(dbg: &str) -> String {
+    let b = dbg.as_bytes();
+    let (mut i, mut out) = (0usize, Vec::<String>::new());
+    while i < b.len() && out.len() < 4 {
+        while i < b.len() && (b[i] == b'(' || b[i] == b'[' || b[i] == b' ') { i += 1; }
+        let st = i;
+        while i < b.len() && (b[i].is_ascii_alphanumeric() || b[i] == b'_') { i += 1; }
+        if i == st || !b[st].is_ascii_uppercase() { break; }
+        let id = &dbg[st..i];
+        let opens = i < b.len() && (b[i] == b'(' || dbg[i..].starts_with(" {"));
+        if matches!(id, "Array" | "Set" | "OHashMap" | "Utxo") { break; }      // a container of payloads: the class ends here
+        if id != "Some" { out.push(id.to_string()); }
+        if !opens { break; }
+        if dbg[i..].starts_with(" {") { break; }
+    }
+    out.join(".")
+}
+
 /// The reject reasons a node really sent (the hex samples of pallas-network's own test module,
-/// read from the tree under test): decode, then the decoded value must survive encode -> scan -> decode.
+/// read from the tree under test). Each decoded sample is split into its single ledger failures;
+/// each failure (class = its leading constructors) must survive encode -> scan -> decode inside a
+/// one-element TxValidationError; samples whose failures all pass are also checked as a whole.
 pub fn reject_samples(cx: &mut Ctx) {
     let repo = std::env::var("VERIF_REPO").unwrap_or_else(|_| "/repo".into());
     let path = format!("{}/pallas-network/src/miniprotocols/localtxsubmission/codec.rs", repo);
     let src = match std::fs::read_to_string(&path) { Ok(s) => s, Err(_) => { emit_stat("reject_samples_missing", 1); return; } };
-    let mut n = 0u64;
+    let (mut n, mut elems, mut whole) = (0u64, 0u64, 0u64);
     let mut lines = src.lines().peekable();
     while let Some(l) = lines.next() {
         if !l.contains("assert_reject_reason(") || l.contains("fn ") { continue; }
@@ -93,15 +117,26 @@ pub fn reject_samples(cx: &mut Ctx) {
         let h = h.trim().trim_end_matches(',').trim_matches('"');
         let Ok(bytes) = hex::decode(h) else { continue };
         let dec = guard(|| { let mut d = Decoder::new(&bytes); d.decode::<ltx::TxValidationError>().map_err(|e| e.to_string()) });
-        if let Out::Ok(v) = dec {
-            n += 1;
-            // keys: one class for the envelope (TxValidationError), samples are not distinguished
-            run_dbg(cx, "n1", "localtxsubmission-reject", "TxValidationError", &v);
-            if n <= 3 {
+        let Out::Ok(ltx::TxValidationError::ShelleyTxValidationError { error, era }) = dec else { continue };
+        n += 1;
+        let mut all_ok = true;
+        for f in &error.0 {
+            elems += 1;
+            let class = ctor_path(&format!("{:?}", f));
+            let one = ltx::TxValidationError::ShelleyTxValidationError { error: ltx::ApplyTxError(vec![f.clone()]), era: era.clone() };
+            all_ok &= run_dbg(cx, "n1", "localtxsubmission-reject", &class, &one);
+        }
+        if all_ok {
+            whole += 1;
+            let v = ltx::TxValidationError::ShelleyTxValidationError { error, era };
+            run_dbg(cx, "n1", "localtxsubmission-reject", "whole-sample", &v);
+            if whole <= 5 {
                 type M = ltx::Message<ltx::EraTx, ltx::TxValidationError>;
                 run_dbg::<M>(cx, "n1", "localtxsubmission-reject", "RejectTx", &ltx::Message::RejectTx(v));
             }
         }
     }
     emit_stat("reject_samples", n);
+    emit_stat("reject_failures_checked", elems);
+    emit_stat("reject_samples_fully_round_tripping", whole);
 }
